@@ -2,13 +2,23 @@
   Property C10 (extension) — the `sumRel` table entries for the graph classes `gra` (`isGraphic`) and `net` (`isNetwork`):
     * `sumRel "1" _ .gra = .both`, `sumRel "1" _ .net = .both` : a 1-sum is graphic (a network matrix) iff every summand
       is (`sum1_gra`, `sum1_net`, `compose1_gra_list`, `compose1_net_list`, both oracles at once: `compose1_orc_list`);
-    * `sumRel "2" 2 .gra = .closed`, `sumRel "2" 3 .net = .closed` : table entries only (`sumRel_gra_net`); the closure
-      statement for the 2-sum is NOT proved here.
+    * `sumRel "2" 2 .gra = .closed` : the binary 2-sum of graphic matrices is graphic, in both layouts
+      (`sum2a_gra`, `sum2b_gra`);
+    * `sumRel "2" 3 .net = .closed` : the ternary 2-sum of network matrices is a network matrix, in both layouts
+      (`sum2a_net`, `sum2b_net`); both oracles at once: `sum2a_orc`, `sum2b_orc` with `chOf`.
 
   Route: the declarative reading `Realises` of `CmrProofs/Lemmas/GraStepLemmas.lean` (`orc_iff_realises`).
   1-sum `⇒`: each block is a submatrix (`orc_S`, i.e. `gra_S` and `net_S` of `C10Graphic.lean`);
   1-sum `⇐`: the disjoint union of the two forests realises the block-diagonal matrix
   (`GraSum.realises_blockDiag` in `CmrProofs/Lemmas/GraSumLemmas.lean`).
+  2-sum, first layout `[[A,0],[d cᵀ,D]]` (`realises_sum2a`): the marker row `r` of the first operand is a forest edge of
+  the first graph, the marker column `c` of the second operand a non-forest edge of the second, i.e. a walk `wc` in the second
+  forest.  The two graphs are glued at the ends of the two markers and the marker is dropped (`GraSum.glueT`); a walk of
+  the first forest through the marker is rerouted along `wc` (against `wc` for a backward step), which multiplies the
+  entries of `wc` by the entry `±1` of the walk at `r` — the product `d cᵀ` (`pathEntry_glue_ge`).  All entries are
+  0, 1 (and -1 in the signed reading), so the reduction `normChar` of the sum does nothing (`normChar_ok`).
+  Second layout `[[A,a bᵀ],[0,D]]` (`realises_sum2b`): the first layout with the operands exchanged, blocks reordered
+  by `realises_sub`.
   The operands are assumed well-formed (`Mat.wf`), as everywhere for these oracles.
 -/
 import CmrProofs.Lemmas.GraSumLemmas
@@ -107,6 +117,227 @@ theorem sum1_net (m1 n1 : Nat) (A : Mat) (m2 n2 : Nat) (B : Mat) (hA : A.wf m1 n
   rw [compose1_net_list _ (by intro x hx; simp at hx; rcases hx with rfl | rfl <;> assumption)]
   simp
 
+/-! ## 2. 2-sums -/
+
+/-- characteristic of the 2-sum that goes with the reading: GF(2) for `isGraphic`, GF(3) for `isNetwork` -/
+def chOf (signed : Bool) : Nat := if signed then 3 else 2
+
+theorem normChar_ok {signed : Bool} {x : Int} (hx : x = 0 ∨ x = 1 ∨ (signed = true ∧ x = -1)) :
+    normChar (chOf signed) x = x := by
+  cases signed
+  · rcases hx with h | h | ⟨h, _⟩
+    · exact C12.normChar_two_of_binary (Or.inl h)
+    · exact C12.normChar_two_of_binary (Or.inr h)
+    · cases h
+  · rcases hx with h | h | ⟨_, h⟩
+    · exact C12.normChar_three_of_ternary (Or.inl h)
+    · exact C12.normChar_three_of_ternary (Or.inr (Or.inl h))
+    · exact C12.normChar_three_of_ternary (Or.inr (Or.inr h))
+
+theorem normChar_pathEntry (signed : Bool) (w : List (Nat × Bool)) (k : Nat) :
+    normChar (chOf signed) (pathEntry signed w k) = pathEntry signed w k := normChar_ok (pathEntry_cases _ _ _)
+
+/-- the entry of the image walk on an edge of the second forest is the product of the two operand entries -/
+theorem pathEntry_glue_ge {signed : Bool} {rows : List Nat} {r : Nat} {wc w : List (Nat × Bool)}
+    (hw : ∀ x ∈ w, x.1 ∈ rows ∨ x.1 = r) (nd : (w.map Prod.fst).Nodup) (ndc : (wc.map Prod.fst).Nodup)
+    (nd' : ((w.flatMap (stepG rows r wc)).map Prod.fst).Nodup) {i : Nat} (hi : rows.length ≤ i) :
+    normChar (chOf signed) (pathEntry signed wc (i - rows.length) * pathEntry signed w r) =
+      pathEntry signed (w.flatMap (stepG rows r wc)) i := by
+  by_cases ht : (r, true) ∈ w <;> by_cases hf : (r, false) ∈ w
+  · exact (not_both_dirs nd ht hf).elim
+  · have h1 : pathEntry signed w r = 1 := by
+      cases signed
+      · rw [pathEntry_unsigned, if_pos (mem_map_fst_iff.mpr (Or.inl ht))]
+      · rw [pathEntry_signed nd, if_pos ht]
+    rw [h1, Int.mul_one, normChar_pathEntry]
+    exact (pathEntry_eq_of_mem_iff ndc nd' (fun d => by rw [mem_glue_ge hw hi]; simp [ht, hf])).symm
+  · cases signed
+    · have h1 : pathEntry false w r = 1 := by
+        rw [pathEntry_unsigned, if_pos (mem_map_fst_iff.mpr (Or.inr hf))]
+      rw [h1, Int.mul_one, normChar_pathEntry, pathEntry_unsigned, pathEntry_unsigned]
+      have : i ∈ (w.flatMap (stepG rows r wc)).map Prod.fst ↔ (i - rows.length) ∈ wc.map Prod.fst := by
+        rw [mem_map_fst_iff, mem_map_fst_iff, mem_glue_ge hw hi, mem_glue_ge hw hi]
+        simp [ht, hf, or_comm]
+      simp only [this]
+    · have h1 : pathEntry true w r = -1 := by
+        rw [pathEntry_signed nd, if_neg ht, if_pos hf]
+      have h2 := pathEntry_neg_of_mem_iff (w := wc) (w' := w.flatMap (stepG rows r wc)) ndc nd'
+        (k := i - rows.length) (k' := i) (fun d => by rw [mem_glue_ge hw hi]; simp [ht, hf])
+      rw [h1, h2, Int.mul_neg, Int.mul_one]
+      rcases pathEntry_cases true wc (i - rows.length) with h | h | ⟨_, h⟩ <;> rw [h] <;> decide
+  · have h1 : pathEntry signed w r = 0 := by
+      apply pathEntry_zero_of_not_mem
+      rw [mem_map_fst_iff]; simp [ht, hf]
+    have h2 : pathEntry signed (w.flatMap (stepG rows r wc)) i = 0 := by
+      apply pathEntry_zero_of_not_mem
+      rw [mem_map_fst_iff, mem_glue_ge hw hi, mem_glue_ge hw hi]; simp [ht, hf]
+    rw [h1, h2, Int.mul_zero]
+    exact normChar_ok (Or.inl rfl)
+
+/-- **2-sum `[[A,0],[d cᵀ,D]]`**: identify the marker forest edge `r` of the first graph with the marker non-forest edge
+`c` of the second and delete it. -/
+theorem realises_sum2a {signed : Bool} {m1 n1 m2 n2 : Nat} {M1 M2 : Mat} {r c : Nat} (hr : r < m1) (hc : c < n2)
+    (h1 : Realises signed m1 n1 M1) (h2 : Realises signed m2 n2 M2) :
+    Realises signed ((eraseIdxs (List.range m1) [r]).length + m2) (n1 + (eraseIdxs (List.range n2) [c]).length)
+      (C12.sum2aResult (chOf signed) m1 n1 M1 m2 n2 M2 r c) := by
+  obtain ⟨T1, rfl, hb1, hc1⟩ := h1
+  obtain ⟨T2, rfl, hb2, hc2⟩ := h2
+  obtain ⟨sc, tc, wc, hwc, ndc, hentc⟩ := hc2 c hc
+  have he : T1[r]? = some T1[r] := List.getElem?_eq_getElem hr
+  unfold C12.sum2aResult
+  set rows := eraseIdxs (List.range T1.length) [r] with hrows
+  set cols := eraseIdxs (List.range n2) [c] with hcols
+  have hmem : ∀ k, k ∈ rows ↔ k < T1.length ∧ k ≠ r := by
+    intro k; rw [hrows, mem_eraseIdxs_range]; simp
+  have hnd : rows.Nodup := by
+    rw [hrows]; unfold eraseIdxs; exact List.nodup_range.filter _
+  have hrn : r ∉ rows := fun h => ((hmem r).mp h).2 rfl
+  have hab : T1[r].tail ≠ T1[r].head := by
+    intro h
+    refine hb1 r _ he ?_
+    rcases T1[r].tail_head with ⟨h1, h2⟩ | ⟨h1, h2⟩
+    · rw [← h1, ← h2, h]; exact ReachOn.refl _
+    · rw [← h1, ← h2, h]; exact ReachOn.refl _
+  refine ⟨glueT T1 T2 rows T1[r].tail T1[r].head sc tc, glueT_length _ _ _ _ _ _ _,
+    glueT_bridgeForest hb1 hb2 hnd hmem he (hwc.reachOn (fun _ _ => trivial)), ?_⟩
+  intro j hj
+  by_cases h2 : j < n1
+  · obtain ⟨s, t, w, hw, nd, hent⟩ := hc1 j h2
+    have hwm : ∀ x ∈ w, x.1 ∈ rows ∨ x.1 = r := by
+      intro x hx
+      obtain ⟨e, hxe⟩ := hw.getElem?_of_mem hx
+      by_cases hxr : x.1 = r
+      · exact Or.inr hxr
+      · exact Or.inl ((hmem _).mpr ⟨(List.getElem?_eq_some_iff.mp hxe).1, hxr⟩)
+    have nd' := nodup_glue (wc := wc) hnd hrn ndc hwm nd
+    refine ⟨_, _, _, walk_glue hmem he hab hwc hw, nd', ?_⟩
+    intro i hi
+    rw [Cmr.ent_blockMat _ _ _ _ _ _ _ _ hi hj]
+    by_cases h1 : i < rows.length <;> simp only [h1, h2, if_true, if_false]
+    · have hg : rows.getD i 0 = rows[i] := by simp [List.getD_eq_getElem?_getD, h1]
+      rw [hg, hent _ ((hmem _).mp (List.getElem_mem h1)).1, normChar_pathEntry]
+      exact (pathEntry_eq_of_mem_iff nd nd' (fun d => mem_glue_lt hnd hrn hwm h1 d)).symm
+    · rw [hentc _ (by omega), hent r hr]
+      exact pathEntry_glue_ge hwm nd ndc nd' (by omega)
+  · have hjl : j - n1 < cols.length := by omega
+    have hcl : cols.getD (j - n1) 0 < n2 := (getD_eraseIdxs_range n2 [c] (i := j - n1) hjl).1
+    obtain ⟨s, t, w, hw, nd, hent⟩ := hc2 _ hcl
+    refine ⟨2 * s + 1, 2 * t + 1, shiftBy rows.length w,
+      walk_append_right (contractT_length _ _ _).symm (walk_rename (2 * · + 1) hw), nodup_shiftBy nd, ?_⟩
+    intro i hi
+    rw [Cmr.ent_blockMat _ _ _ _ _ _ _ _ hi hj]
+    by_cases h1 : i < rows.length <;> simp only [h1, h2, if_true, if_false]
+    · exact (pathEntry_shiftBy_lt h1).symm
+    · rw [pathEntry_shiftBy_ge nd (by omega), hent _ (by omega), normChar_pathEntry]
+
+/-- **2-sum `[[A,a bᵀ],[0,D]]`**: the first layout with the operands exchanged, blocks reordered. -/
+theorem realises_sum2b {signed : Bool} {m1 n1 m2 n2 : Nat} {M1 M2 : Mat} {c r : Nat} (hc : c < n1) (hr : r < m2)
+    (h1 : Realises signed m1 n1 M1) (h2 : Realises signed m2 n2 M2) :
+    Realises signed (m1 + (eraseIdxs (List.range m2) [r]).length) ((eraseIdxs (List.range n1) [c]).length + n2)
+      (C12.sum2bResult (chOf signed) m1 n1 M1 m2 n2 M2 c r) := by
+  have h := realises_sum2a hr hc h2 h1
+  unfold C12.sum2aResult at h
+  unfold C12.sum2bResult
+  set rows2 := eraseIdxs (List.range m2) [r] with hrows2
+  set cols1 := eraseIdxs (List.range n1) [c] with hcols1
+  have hs := realises_sub h (rows := (List.range m1).map (· + rows2.length) ++ List.range rows2.length)
+    (cols := (List.range cols1.length).map (· + n2) ++ List.range n2)
+    (by
+      rw [List.nodup_append]
+      refine ⟨List.nodup_range.map (fun a b h => by simpa using h), List.nodup_range, ?_⟩
+      intro a ha b hb
+      simp at ha hb
+      omega)
+    (by intro x hx; simp at hx; omega) (by intro x hx; simp at hx; omega)
+  simp only [List.length_append, List.length_map, List.length_range] at hs
+  refine realises_congr ?_ hs
+  intro i hi j hj
+  rw [ent_sub _ _ _ (by simpa using hi) (by simpa using hj), Cmr.ent_blockMat _ _ _ _ _ _ _ _ hi hj]
+  by_cases h1 : i < m1 <;> by_cases h2 : j < cols1.length
+  · have e1 : ((List.range m1).map (· + rows2.length) ++ List.range rows2.length)[i]'(by simpa using hi) =
+        i + rows2.length := by rw [List.getElem_append_left (by simpa using h1)]; simp
+    have e2 : ((List.range cols1.length).map (· + n2) ++ List.range n2)[j]'(by simpa using hj) = j + n2 := by
+      rw [List.getElem_append_left (by simpa using h2)]; simp
+    rw [e1, e2, Cmr.ent_blockMat _ _ _ _ _ _ _ _ (by omega) (by omega)]
+    simp [h1, h2]
+  · have e1 : ((List.range m1).map (· + rows2.length) ++ List.range rows2.length)[i]'(by simpa using hi) =
+        i + rows2.length := by rw [List.getElem_append_left (by simpa using h1)]; simp
+    have e2 : ((List.range cols1.length).map (· + n2) ++ List.range n2)[j]'(by simpa using hj) = j - cols1.length := by
+      rw [List.getElem_append_right (by simpa using h2)]; simp
+    rw [e1, e2, Cmr.ent_blockMat _ _ _ _ _ _ _ _ (by omega) (by omega)]
+    have : j - cols1.length < n2 := by omega
+    simp [h1, h2, this]
+  · have e1 : ((List.range m1).map (· + rows2.length) ++ List.range rows2.length)[i]'(by simpa using hi) =
+        i - m1 := by rw [List.getElem_append_right (by simpa using h1)]; simp
+    have e2 : ((List.range cols1.length).map (· + n2) ++ List.range n2)[j]'(by simpa using hj) = j + n2 := by
+      rw [List.getElem_append_left (by simpa using h2)]; simp
+    rw [e1, e2, Cmr.ent_blockMat _ _ _ _ _ _ _ _ (by omega) (by omega)]
+    have : i - m1 < rows2.length := by omega
+    simp [h1, h2, this]
+  · have e1 : ((List.range m1).map (· + rows2.length) ++ List.range rows2.length)[i]'(by simpa using hi) =
+        i - m1 := by rw [List.getElem_append_right (by simpa using h1)]; simp
+    have e2 : ((List.range cols1.length).map (· + n2) ++ List.range n2)[j]'(by simpa using hj) = j - cols1.length := by
+      rw [List.getElem_append_right (by simpa using h2)]; simp
+    rw [e1, e2, Cmr.ent_blockMat _ _ _ _ _ _ _ _ (by omega) (by omega)]
+    have h3 : i - m1 < rows2.length := by omega
+    have h4 : j - cols1.length < n2 := by omega
+    simp [h1, h2, h3, h4]
+
+/-- both oracles at once -/
+theorem sum2a_orc {signed : Bool} {m1 n1 : Nat} {M1 : Mat} {m2 n2 : Nat} {M2 : Mat} {r c : Nat} {P : Mat}
+    (h : compose2a (chOf signed) m1 n1 M1 m2 n2 M2 r c = .ok P)
+    (hwf1 : M1.wf m1 n1 = true) (hwf2 : M2.wf m2 n2 = true)
+    (h1 : orc signed m1 n1 M1 = true) (h2 : orc signed m2 n2 M2 = true) :
+    orc signed ((m1 - 1) + m2) (n1 + (n2 - 1)) P = true := by
+  have hPwf := C12.compose2a_wf h
+  obtain ⟨⟨hr, hc⟩, rfl⟩ := (C12.compose2a_eq_ok_iff _ _ _ _ _ _ _ _ _ _).mp h
+  rw [orc_iff_realises hPwf]
+  have := realises_sum2a hr hc ((orc_iff_realises hwf1).mp h1) ((orc_iff_realises hwf2).mp h2)
+  rwa [length_eraseIdxs_one hr, length_eraseIdxs_one hc] at this
+
+/-- **Binary 2-sum `[[A,0],[d cᵀ,D]]` of graphic matrices is graphic.** -/
+theorem sum2a_gra {m1 n1 : Nat} {M1 : Mat} {m2 n2 : Nat} {M2 : Mat} {r c : Nat} {P : Mat}
+    (h : compose2a 2 m1 n1 M1 m2 n2 M2 r c = .ok P)
+    (hwf1 : M1.wf m1 n1 = true) (hwf2 : M2.wf m2 n2 = true)
+    (h1 : isGraphic m1 n1 M1 = true) (h2 : isGraphic m2 n2 M2 = true) :
+    isGraphic ((m1 - 1) + m2) (n1 + (n2 - 1)) P = true :=
+  sum2a_orc (signed := false) h hwf1 hwf2 h1 h2
+
+/-- **Ternary 2-sum `[[A,0],[d cᵀ,D]]` of network matrices is a network matrix.** -/
+theorem sum2a_net {m1 n1 : Nat} {M1 : Mat} {m2 n2 : Nat} {M2 : Mat} {r c : Nat} {P : Mat}
+    (h : compose2a 3 m1 n1 M1 m2 n2 M2 r c = .ok P)
+    (hwf1 : M1.wf m1 n1 = true) (hwf2 : M2.wf m2 n2 = true)
+    (h1 : isNetwork m1 n1 M1 = true) (h2 : isNetwork m2 n2 M2 = true) :
+    isNetwork ((m1 - 1) + m2) (n1 + (n2 - 1)) P = true :=
+  sum2a_orc (signed := true) h hwf1 hwf2 h1 h2
+
+theorem sum2b_orc {signed : Bool} {m1 n1 : Nat} {M1 : Mat} {m2 n2 : Nat} {M2 : Mat} {c r : Nat} {P : Mat}
+    (h : compose2b (chOf signed) m1 n1 M1 m2 n2 M2 c r = .ok P)
+    (hwf1 : M1.wf m1 n1 = true) (hwf2 : M2.wf m2 n2 = true)
+    (h1 : orc signed m1 n1 M1 = true) (h2 : orc signed m2 n2 M2 = true) :
+    orc signed (m1 + (m2 - 1)) ((n1 - 1) + n2) P = true := by
+  have hPwf := C12.compose2b_wf h
+  obtain ⟨⟨hc, hr⟩, rfl⟩ := (C12.compose2b_eq_ok_iff _ _ _ _ _ _ _ _ _ _).mp h
+  rw [orc_iff_realises hPwf]
+  have := realises_sum2b hc hr ((orc_iff_realises hwf1).mp h1) ((orc_iff_realises hwf2).mp h2)
+  rwa [length_eraseIdxs_one hr, length_eraseIdxs_one hc] at this
+
+/-- **Binary 2-sum `[[A,a bᵀ],[0,D]]` of graphic matrices is graphic.** -/
+theorem sum2b_gra {m1 n1 : Nat} {M1 : Mat} {m2 n2 : Nat} {M2 : Mat} {c r : Nat} {P : Mat}
+    (h : compose2b 2 m1 n1 M1 m2 n2 M2 c r = .ok P)
+    (hwf1 : M1.wf m1 n1 = true) (hwf2 : M2.wf m2 n2 = true)
+    (h1 : isGraphic m1 n1 M1 = true) (h2 : isGraphic m2 n2 M2 = true) :
+    isGraphic (m1 + (m2 - 1)) ((n1 - 1) + n2) P = true :=
+  sum2b_orc (signed := false) h hwf1 hwf2 h1 h2
+
+/-- **Ternary 2-sum `[[A,a bᵀ],[0,D]]` of network matrices is a network matrix.** -/
+theorem sum2b_net {m1 n1 : Nat} {M1 : Mat} {m2 n2 : Nat} {M2 : Mat} {c r : Nat} {P : Mat}
+    (h : compose2b 3 m1 n1 M1 m2 n2 M2 c r = .ok P)
+    (hwf1 : M1.wf m1 n1 = true) (hwf2 : M2.wf m2 n2 = true)
+    (h1 : isNetwork m1 n1 M1 = true) (h2 : isNetwork m2 n2 M2 = true) :
+    isNetwork (m1 + (m2 - 1)) ((n1 - 1) + n2) P = true :=
+  sum2b_orc (signed := true) h hwf1 hwf2 h1 h2
+
 /-! ## 3. Non-vacuity and worked instances -/
 
 /-- a 1-sum evaluated by the oracles directly -/
@@ -134,6 +365,47 @@ example : isNetwork (compose1 [(1, 1, [[-1]]), (2, 2, [[1, 1], [1, -1]])]).1 (co
     (compose1 [(1, 1, [[-1]]), (2, 2, [[1, 1], [1, -1]])]).2.2 = false := by
   rw [Bool.eq_false_iff, Ne, sum1_net 1 1 _ 2 2 _ (by decide) (by decide)]
   decide
+
+/-! ### the 2-sum statements -/
+
+/-- binary 2-sum (first layout) of the cycle matrix of `K4` (marker row 2) and `[[1,1],[1,0]]` (marker column 0) … -/
+example : C12.okEq (compose2a 2 3 3 [[1, 1, 0], [1, 0, 1], [0, 1, 1]] 2 2 [[1, 1], [1, 0]] 2 0)
+    [[1, 1, 0, 0], [1, 0, 1, 0], [0, 1, 1, 1], [0, 1, 1, 0]] = true := by decide
+
+/-- … the theorem applies to it, and the verdict agrees with direct evaluation of the oracle -/
+example : isGraphic 4 4 [[1, 1, 0, 0], [1, 0, 1, 0], [0, 1, 1, 1], [0, 1, 1, 0]] = true :=
+  sum2a_gra (m1 := 3) (n1 := 3) (M1 := [[1, 1, 0], [1, 0, 1], [0, 1, 1]]) (m2 := 2) (n2 := 2) (M2 := [[1, 1], [1, 0]])
+    (r := 2) (c := 0) (by decide) (by decide) (by decide) (by decide) (by decide)
+
+example : isGraphic 4 4 [[1, 1, 0, 0], [1, 0, 1, 0], [0, 1, 1, 1], [0, 1, 1, 0]] = true := by decide
+
+/-- ternary 2-sum (first layout) of two network matrices, marker row 0 and marker column 0 -/
+example : C12.okEq (compose2a 3 3 2 [[-1, 1], [1, 0], [0, -1]] 2 2 [[1, -1], [0, 1]] 0 0)
+    [[1, 0, 0], [0, -1, 0], [-1, 1, -1], [0, 0, 1]] = true := by decide
+
+example : isNetwork 4 3 [[1, 0, 0], [0, -1, 0], [-1, 1, -1], [0, 0, 1]] = true :=
+  sum2a_net (m1 := 3) (n1 := 2) (M1 := [[-1, 1], [1, 0], [0, -1]]) (m2 := 2) (n2 := 2) (M2 := [[1, -1], [0, 1]])
+    (r := 0) (c := 0) (by decide) (by decide) (by decide) (by decide) (by decide)
+
+example : isNetwork 4 3 [[1, 0, 0], [0, -1, 0], [-1, 1, -1], [0, 0, 1]] = true := by decide
+
+/-- second layout -/
+example : C12.okEq (compose2b 2 3 3 [[1, 1, 0], [1, 0, 1], [0, 1, 1]] 2 2 [[1, 1], [0, 1]] 2 0)
+    [[1, 1, 0, 0], [1, 0, 1, 1], [0, 1, 1, 1], [0, 0, 0, 1]] = true := by decide
+
+example : isGraphic 4 4 [[1, 1, 0, 0], [1, 0, 1, 1], [0, 1, 1, 1], [0, 0, 0, 1]] = true :=
+  sum2b_gra (m1 := 3) (n1 := 3) (M1 := [[1, 1, 0], [1, 0, 1], [0, 1, 1]]) (m2 := 2) (n2 := 2) (M2 := [[1, 1], [0, 1]])
+    (c := 2) (r := 0) (by decide) (by decide) (by decide) (by decide) (by decide)
+
+example : C12.okEq (compose2b 3 3 2 [[-1, 1], [1, 0], [0, -1]] 2 2 [[1, -1], [0, 1]] 1 0)
+    [[-1, 1, -1], [1, 0, 0], [0, -1, 1], [0, 0, 1]] = true := by decide
+
+example : isNetwork 4 3 [[-1, 1, -1], [1, 0, 0], [0, -1, 1], [0, 0, 1]] = true :=
+  sum2b_net (m1 := 3) (n1 := 2) (M1 := [[-1, 1], [1, 0], [0, -1]]) (m2 := 2) (n2 := 2) (M2 := [[1, -1], [0, 1]])
+    (c := 1) (r := 0) (by decide) (by decide) (by decide) (by decide) (by decide)
+
+example : isGraphic 4 4 [[1, 1, 0, 0], [1, 0, 1, 1], [0, 1, 1, 1], [0, 0, 0, 1]] = true ∧
+    isNetwork 4 3 [[-1, 1, -1], [1, 0, 0], [0, -1, 1], [0, 0, 1]] = true := by decide
 
 /-- the 2-sum entries are claimed in one characteristic only -/
 example : sumRel "2" 3 .gra = .none ∧ sumRel "2" 2 .net = .none := by decide
